@@ -75,3 +75,45 @@ package sourcebundle
 //@       && !(modeDirBit(fileMode(info)) && (excl(ignoreRules, Rel(root, absPath)) || excl(ignoreRules, Rel(root, absPath) + "/")))
 //@       ==> isLocalPath(Rel(RealPath(Abs(root)), RealPath(Join(RealPath(Abs(root)), Rel(root, absPath)))))
 //@   ensures C03,C10.prepare.skip-only-removed: err == nil && rerr == filepath.SkipDir ==> $lastRemoved == absPath
+
+//@ func buildTraceFromContext -> (r)
+//@   pure
+//@   ensures C14.trace.nonnil: r != nil
+//@   defines def.tracer-set: r.RegistryPackageVersionsStart != nil && r.RegistryPackageVersionsSuccess != nil && r.RegistryPackageVersionsFailure != nil && r.RegistryPackageVersionsAlready != nil
+//@       && r.RegistryPackageSourceStart != nil && r.RegistryPackageSourceSuccess != nil && r.RegistryPackageSourceFailure != nil && r.RegistryPackageSourceAlready != nil
+//@       && r.RemotePackageDownloadStart != nil && r.RemotePackageDownloadSuccess != nil && r.RemotePackageDownloadFailure != nil && r.RemotePackageDownloadAlready != nil && r.Diagnostics != nil
+
+//@ func extractVersionListFromResponse -> (r)
+//@   pure
+//@   defines def.sorted: r == sortedVersionsOf(modPackageInfos)
+
+// Resolving a registry source: version selection, caches, deprecation notes, trace events.
+//@ macro pkgVerKey(P, V): skolemKey(P, V)
+//@ func (*Builder).findRegistryPackageSource -> (r, err)
+//@   sweep
+//@   requires pre.b: b != nil && b.registryPackageVersions != nil && b.resolvedRegistry != nil && b.packageVersionDeprecations != nil
+//@   ghost $selected T.versions.Version
+//@   ghost $selCalled Bool = false
+//@   ghost $nVersionsReq Int = 0
+//@   ghost $nSourceReq Int = 0
+//@   ghost $evStart Int = 0
+//@   ghost $evEnd Int = 0
+//@   ghost $evAlready Int = 0
+//@   at-call extractVersionListFromResponse C17.find.list-from-cache: mapHas(b.registryPackageVersions, sourceAddr.pkg) && a0 == b.registryPackageVersions[sourceAddr.pkg]
+//@   at-call (github.com/apparentlymart/go-versions/versions.List).NewestInSet C17.find.newest-in-allowed: a0 == sortedVersionsOf(b.registryPackageVersions[sourceAddr.pkg]) && a1 == allowedVersions
+//@   ensures C17.find.none-allowed: $selCalled && $selected == versions.Unspecified ==> err != nil
+//@   at-call invoke github.com/hashicorp/go-slug/sourcebundle.RegistryClient.ModulePackageVersions C14.find.versions-once: !mapHas(b.registryPackageVersions, sourceAddr.pkg)
+//@   at-call invoke github.com/hashicorp/go-slug/sourcebundle.RegistryClient.ModulePackageSourceAddr C14.find.source-once: !mapHas(b.resolvedRegistry, pkgVer)
+//@   ensures C14.find.cached-after: err == nil ==> mapHas(b.registryPackageVersions, sourceAddr.pkg) && mapHas(b.resolvedRegistry, pkgVer)
+//@   ensures C17,C08.find.result: err == nil ==> pkgVer.pkg == sourceAddr.pkg && pkgVer.version == $selected && $selected != versions.Unspecified
+//@       && r.pkg == b.resolvedRegistry[pkgVer].pkg && r.subPath == ite(Join(b.resolvedRegistry[pkgVer].subPath, sourceAddr.subPath) == ".", "", Join(b.resolvedRegistry[pkgVer].subPath, sourceAddr.subPath))
+//@   ensures C14.find.bracket: $evStart == $evEnd
+//@   invariant loop1 C17.find.deprecation.inv: versionDeprecation == nil && rangeindex < len(availablePackageInfos)
+//@       && (0 <= anyIndex && anyIndex <= rangeindex ==> !sameVersion(selectedVersion, availablePackageInfos[anyIndex].Version))
+//@   ensures-local C17.find.deprecation: err == nil && !mapHas(old(b.resolvedRegistry), pkgVer) ==>
+//@       (versionDeprecation == nil ==> b.packageVersionDeprecations[pkgVer] == nil)
+//@       && (versionDeprecation != nil ==> 0 <= rangeindex && rangeindex < len(availablePackageInfos)
+//@             && sameVersion(selectedVersion, availablePackageInfos[rangeindex].Version) && versionDeprecation == availablePackageInfos[rangeindex].Deprecation
+//@             && (0 <= anyIndex && anyIndex < rangeindex ==> !sameVersion(selectedVersion, availablePackageInfos[anyIndex].Version))
+//@             && b.packageVersionDeprecations[pkgVer] != nil && b.packageVersionDeprecations[pkgVer].Reason == versionDeprecation.Reason && b.packageVersionDeprecations[pkgVer].Link == versionDeprecation.Link)
+//@   ensures-local C17.find.deprecation.kept: err == nil && mapHas(old(b.resolvedRegistry), pkgVer) ==> b.packageVersionDeprecations[pkgVer] == old(b.packageVersionDeprecations)[pkgVer]
